@@ -324,11 +324,72 @@ def h_dataframe(nr, nc, dense):
             fail('metadata-dataframe:content', f"{ax}: {got_cols} {got_rows}", axis=ax)
 
 
-HARNESSES = {'dataframe': h_dataframe, 'summaries': h_summaries, 'stats': h_stats, 'report': h_report, 'cli_ids_head': h_cli_ids_head}
+def h_export_metadata(nr, nc):
+    """biom export-metadata (_export_metadata): the exported text carries the table's metadata values, digit for digit"""
+    import io
+    import sx.env as env
+    b = B()
+    ME = env.module('biom.cli.metadata_exporter')
+    t, a = make_table(nr, nc, md='both', zeros=0, unsorted=False, layouts=('csr',), type_='OTU table')
+    extra = {'sample': lambda k: {'conc': 1234567.5 + k, 'ratio': 6.123456789 * (k + 1), 'count': 3 * k},
+             'observation': lambda k: {'weight': 0.000123456789 * (k + 1), 'big': 2.5e+17 + k}}
+    for ax in ('sample', 'observation'):
+        t.add_metadata({i: extra[ax](k) for k, i in enumerate(a.ids(ax))}, axis=ax)
+        for k in range(len(a.ids(ax))):
+            a.md(ax)[k].update(extra[ax](k))
+    for ax in ('sample', 'observation'):
+        md = a.md(ax)
+        want_cols, want_rows = [], []
+        for k, v in md[0].items():
+            want_cols += ['%s_%d' % (k, q) for q in range(len(v))] if isinstance(v, (list, tuple)) else [k]
+        for m in md:
+            row = []
+            for k, v in m.items():
+                row += list(v) if isinstance(v, (list, tuple)) else [v]
+            want_rows.append(row)
+        sig = dict(axis=ax)
+        if b.mode == 'sym':
+            from sx.models import pandas_stub as PS
+            del PS.CSV_CALLS[:]
+            _, e = call(lambda: ME._export_metadata(t, ax, 'in.biom', 'out.tsv'))
+            if e is not None or len(PS.CSV_CALLS) != 1:
+                fail('export-metadata:raised', f"{e!r} {len(PS.CSV_CALLS)} to_csv calls"[:150], **sig)
+                continue
+            frame, fp, args, kw = PS.CSV_CALLS[0]
+            ok = (fp == 'out.tsv' and not args and kw == {'sep': '\t'}             # nothing that re-formats, selects or drops values
+                  and [str(x) for x in frame.index] == a.ids(ax) and list(frame.columns) == want_cols
+                  and [[str(x) for x in r] for r in frame.data] == [[str(x) for x in r] for r in want_rows])
+            if not ok:
+                fail('export-metadata:text', f"to_csv({fp!r}, {args}, {kw}) columns {list(frame.columns)}"[:200], **sig)
+        else:
+            buf = io.StringIO()
+            _, e = call(lambda: ME._export_metadata(t, ax, 'in.biom', buf))
+            if e is not None:
+                fail('export-metadata:raised', repr(e)[:150], **sig)
+                continue
+            lines = buf.getvalue().rstrip('\n').split('\n')
+            head = lines[0].split('\t')
+            rows = [l.split('\t') for l in lines[1:]]
+            ok = head[1:] == want_cols and [r[0] for r in rows] == a.ids(ax)
+            for r, w in zip(rows, want_rows):
+                for x, y in zip(r[1:], w):
+                    ok = ok and ((float(x) == float(y)) if isinstance(y, (int, float)) and not isinstance(y, bool) else x == str(y))
+            if not ok or len(rows) != len(want_rows):
+                fail('export-metadata:text', f"{lines[:3]}"[:200], **sig)
+    # a table without metadata on an axis: the command says so and writes nothing
+    t0, _ = make_table(nr, nc, prefix='u', md='none', zeros=0, unsorted=False, layouts=('csr',))
+    said = []
+    ME.click = type('click', (), {'echo': staticmethod(lambda msg, **k: said.append(msg))})
+    _, e = call(lambda: ME._export_metadata(t0, 'sample', 'in.biom', 'out.tsv' if b.mode == 'sym' else io.StringIO()))
+    if e is not None or len(said) != 1 or 'does not contain sample metadata' not in said[0]:
+        fail('export-metadata:no-metadata-message', f"{e!r} {said}"[:150])
+
+
+HARNESSES = {'export_metadata': h_export_metadata, 'dataframe': h_dataframe, 'summaries': h_summaries, 'stats': h_stats, 'report': h_report, 'cli_ids_head': h_cli_ids_head}
 
 
 def jobs(tier):
-    out = []
+    out = [('export_metadata', (2, 2))]
     shapes = [(2, 3), (2, 2)] if tier == 'quick' else [(2, 3), (3, 2), (2, 2), (3, 3)]
     for nr, nc in shapes:
         out.append(('summaries', (nr, nc, 1 if nr * nc <= 4 or tier != 'quick' else 0)))
